@@ -10,4 +10,6 @@ mod message;
 #[cfg(kani)]
 mod builder;
 #[cfg(kani)]
+mod order;
+#[cfg(kani)]
 mod playback_gen;
